@@ -80,6 +80,8 @@ type Opts struct {
 	Seed         int64
 	Palette      string
 	Cache, Flush int
+	// EmptyFirstKey: key 1 is the empty byte string (a valid key, the smallest one)
+	EmptyFirstKey bool
 }
 
 type driver struct {
@@ -91,6 +93,20 @@ type driver struct {
 	iv   int64
 	fast bool
 	out  []Event
+}
+
+func (d *driver) key(k int) []byte {
+	if d.o.EmptyFirstKey && k == 1 {
+		return []byte{}
+	}
+	return d.pal.Key(k)
+}
+
+func (d *driver) keyOf(b []byte) int {
+	if d.o.EmptyFirstKey && len(b) == 0 {
+		return 1
+	}
+	return d.pal.KeyOf(b)
 }
 
 func (d *driver) opts() []iavl.Option {
@@ -129,7 +145,7 @@ func (d *driver) export(it *iavl.ImmutableTree) ([]Node, error) {
 		if n.Height == 0 {
 			v = d.valueOf(n.Value)
 		}
-		nodes = append(nodes, Node{K: d.pal.KeyOf(n.Key), V: v, Ver: n.Version, H: int(n.Height)})
+		nodes = append(nodes, Node{K: d.keyOf(n.Key), V: v, Ver: n.Version, H: int(n.Height)})
 	}
 }
 
@@ -148,7 +164,7 @@ type reader interface {
 func (d *driver) reads(t reader) ([]int, error) {
 	r := make([]int, d.o.K)
 	for k := 1; k <= d.o.K; k++ {
-		has, err := t.Has(d.pal.Key(k))
+		has, err := t.Has(d.key(k))
 		if err != nil {
 			return nil, err
 		}
@@ -156,7 +172,7 @@ func (d *driver) reads(t reader) ([]int, error) {
 			r[k-1] = -1
 			continue
 		}
-		v, err := t.Get(d.pal.Key(k))
+		v, err := t.Get(d.key(k))
 		if err != nil {
 			return nil, err
 		}
@@ -230,15 +246,15 @@ func Generate(o Opts) (lines []string, err error) {
 		switch x := rng.Intn(100); {
 		case x < 34:
 			e.Op, e.K, e.V = "set", 1+rng.Intn(o.K), rng.Intn(nvals)
-			upd, err := d.tree.Set(d.pal.Key(e.K), d.pal.Value(e.V))
+			upd, err := d.tree.Set(d.key(e.K), d.pal.Value(e.V))
 			e.Upd, e.Err = upd, err != nil
 		case x < 35:
 			e.Op, e.K = "setnil", 1+rng.Intn(o.K)
-			_, err := d.tree.Set(d.pal.Key(e.K), nil)
+			_, err := d.tree.Set(d.key(e.K), nil)
 			e.Err = err != nil
 		case x < 47:
 			e.Op, e.K = "rm", 1+rng.Intn(o.K)
-			v, rem, err := d.tree.Remove(d.pal.Key(e.K))
+			v, rem, err := d.tree.Remove(d.key(e.K))
 			e.Rem, e.Err, e.Val = rem, err != nil, -1
 			if rem {
 				e.Val = d.valueOf(v)
@@ -292,7 +308,7 @@ func Generate(o Opts) (lines []string, err error) {
 					p.V = 0
 				}
 				e.CS = append(e.CS, p)
-				kp := &iavl.KVPair{Key: d.pal.Key(p.K), Delete: p.Del}
+				kp := &iavl.KVPair{Key: d.key(p.K), Delete: p.Del}
 				if !p.Del {
 					kp.Value = d.pal.Value(p.V)
 				}
@@ -388,7 +404,7 @@ func Generate(o Opts) (lines []string, err error) {
 				if x < 0 {
 					return nil
 				}
-				return d.pal.Key(x)
+				return d.key(x)
 			}
 			var itr interface {
 				Valid() bool
@@ -414,7 +430,7 @@ func Generate(o Opts) (lines []string, err error) {
 			}
 			e.Items = []KV{}
 			for ; itr.Valid(); itr.Next() {
-				e.Items = append(e.Items, KV{K: d.pal.KeyOf(itr.Key()), V: d.valueOf(itr.Value())})
+				e.Items = append(e.Items, KV{K: d.keyOf(itr.Key()), V: d.valueOf(itr.Value())})
 			}
 			if err := itr.Error(); err != nil {
 				return nil, fmt.Errorf("iterator error: %w", err)
@@ -433,11 +449,11 @@ func Generate(o Opts) (lines []string, err error) {
 					return nil, fmt.Errorf("GetImmutable(%d) of an available version: %w", e.T, gerr)
 				}
 			}
-			idx, val, err := it.GetWithIndex(d.pal.Key(e.K))
+			idx, val, err := it.GetWithIndex(d.key(e.K))
 			if err != nil {
 				return nil, fmt.Errorf("GetWithIndex: %w", err)
 			}
-			has, err := it.Has(d.pal.Key(e.K))
+			has, err := it.Has(d.key(e.K))
 			if err != nil {
 				return nil, fmt.Errorf("Has: %w", err)
 			}
@@ -451,7 +467,7 @@ func Generate(o Opts) (lines []string, err error) {
 				return nil, fmt.Errorf("GetByIndex: %w", err)
 			}
 			if bk != nil {
-				e.BK, e.BV = d.pal.KeyOf(bk), d.valueOf(bv)
+				e.BK, e.BV = d.keyOf(bk), d.valueOf(bv)
 			}
 			d.out = append(d.out, e)
 			continue
